@@ -148,6 +148,18 @@ Theorem default_rule :
 Proof. exact ProofsReject.default_rule. Qed.
 Print Assumptions default_rule.
 
+(** ... at every depth: the defaulted variable is bound to the JSON of its default, and a variable bound to
+    the JSON of a sub-literal can stand for it anywhere inside the argument literal ([lsub]: inside object
+    literals, lists inside objects, objects inside lists) without changing valueToJson's result. *)
+Theorem default_reaches_every_depth :
+  forall defs vars vars' d l0,
+    NoDup (map vd_name defs) -> apply_defaults defs vars vars = Ok vars' ->
+    In d defs -> vd_default d = Some l0 -> non_null (lookup (vd_name d) vars) = false ->
+    exists j, vtj [] l0 = Ok j /\ lookup (vd_name d) vars' = Some j /\
+      forall l l', lsub vars' l l' -> vtj vars' l' = vtj vars' l.
+Proof. exact ProofsDoc.default_reaches_every_depth. Qed.
+Print Assumptions default_reaches_every_depth.
+
 (** The rule as coded: a default on a required variable is a client error raised by Parse. *)
 Theorem default_on_required_rejected :
   forall defs orig acc d l,
